@@ -111,6 +111,8 @@ pub struct Entry {
     /// Timing is not attributable (overlap with an older lifecycle's RPCs, read faults).
     pub timing_ambiguous: bool,
     pub marker_issued: bool,
+    /// Some write of a new attempt (marker or attempt record) was issued.
+    pub attempt_started: bool,
     pub pay_issued: bool,
     /// Snapshot at marker write: (min expiry lenient bound, told_low).
     pub snap: Option<(u32, u32)>,
@@ -230,6 +232,9 @@ impl Oracles {
                 (prop, rule),
                 ("C11", "failed-before-timeout")
                     | ("C11", "failed-late")
+                    | ("C06", "panic")
+                    | ("C06", "unanswered")
+                    | ("C06", "mpp-deadline-missed")
                     | ("C04", "maxdelay-too-large")
                     | ("C04", "maxdelay-above-policy")
                     | ("C12", "first-htlc-not-rejected-with-policy")
@@ -461,6 +466,7 @@ impl Oracles {
                     time_left_ms: None,
                     timing_ambiguous: false,
                     marker_issued: false,
+                    attempt_started: false,
                     pay_issued: false,
                     snap: None,
                     snap_exact: None,
@@ -502,7 +508,7 @@ impl Oracles {
                 if e.funded {
                     // Ready was signalled before; whether the lifecycle already
                     // consumed it is not observable here in general.
-                    if !e.marker_issued {
+                    if !e.attempt_started {
                         e.either = true;
                     }
                 } else {
@@ -582,13 +588,20 @@ impl Oracles {
                     e.fetch_issued = true;
                 }
             }
-            RpcKind::MarkerWrite => self.on_marker_issued(w, ri, &x),
+            RpcKind::MarkerWrite => self.on_marker_issued(w, ri, &x, true),
+            // If an implementation writes the attempt record before the marker,
+            // the payment parameters were computed no later than this write.
+            RpcKind::AttemptCreate
+                if self.entries.get(&x).map(|e| e.snap.is_none()).unwrap_or(false) =>
+            {
+                self.on_marker_issued(w, ri, &x, false)
+            }
             RpcKind::Pay => self.on_pay_issued(w, ri, &x),
             _ => {}
         }
     }
 
-    fn on_marker_issued(&mut self, w: &World, _ri: usize, x: &H32) {
+    fn on_marker_issued(&mut self, w: &World, _ri: usize, x: &H32, is_marker: bool) {
         // Snapshot for C04: lenient bound on the minimum expiry the plugin saw.
         let mut min_earlier = u32::MAX;
         let mut max_this_step: Option<u32> = None;
@@ -620,7 +633,13 @@ impl Oracles {
             .held_calls()
             .any(|(_, c)| matches!(&c.class, Class::Trampoline(t) if &t.hash != x));
         if let Some(e) = self.entries.get_mut(x) {
-            e.marker_issued = true;
+            if e.snap.is_some() {
+                // Snapshot already taken at an earlier write of this attempt.
+                e.marker_issued = e.marker_issued || is_marker;
+                return;
+            }
+            e.marker_issued = is_marker;
+            e.attempt_started = true;
             e.snap = Some((bound, told_low));
             e.snap_exact = exact.map(|m| (m, others_held));
             if !e.funded && e.doomed.is_none() {
@@ -879,14 +898,17 @@ impl Oracles {
                 }
             }
             (None, _) => self.violate(w, "C04", "maxdelay-missing", "pay without maxdelay".into()),
-            (Some(_), None) => {
-                self.violate(
-                    w,
-                    "C08",
-                    "pay-without-marker",
-                    format!("pay issued for hash {} before any in-flight marker write was issued by this lifecycle", rf::hex(x)),
-                );
-            }
+            (Some(_), None) => {}
+        }
+        // ---- C08: the in-flight marker is durable before pay is issued ----------------
+        self.hit("c08.pay-issued");
+        if !matches!(w.node.store(x), StoreKind::Pending { .. }) {
+            self.violate(
+                w,
+                "C08",
+                "pay-issued-without-durable-marker",
+                format!("pay issued for hash {} while the durable record says {:?}", rf::hex(x), w.node.store(x)),
+            );
         }
         // ---- C19: retry_for --------------------------------------------------------
         if let Some(rf_) = retry_for {
@@ -1066,7 +1088,7 @@ impl Oracles {
             None => return,
         };
         let is_err = !matches!(reply, SimReply::Result(_));
-        let mpp_ms = w.cfg.mpp_timeout * 1000;
+        let mpp_ms = w.cfg.mpp_timeout.saturating_mul(1000);
         let wall_ms = w.wall_ms();
         if let Some(e) = self.entries.get_mut(&x) {
             match kind {
@@ -1092,7 +1114,7 @@ impl Oracles {
                         e.fetch_reply = Some(Ok(kind));
                     }
                 }
-                RpcKind::MarkFailedFree if e.restart_path && !e.restart_wait_done && !e.marker_issued => {
+                RpcKind::MarkFailedFree if e.restart_path && !e.restart_wait_done && !e.attempt_started => {
                     // End of the restart path's bookkeeping: the MPP wait starts now.
                     if !is_err {
                         e.restart_wait_done = true;
@@ -1400,7 +1422,12 @@ impl Oracles {
                         let key = match self.entries.get(&x) {
                             Some(e) => {
                                 if matches!(e.fetch_reply, Some(Err(()))) {
-                                    "stored-state-read-failed".to_string()
+                                    // D6 answers 2002 in the very step the read failed.
+                                    if *m == rf::MSG_TEMP_NODE.to_vec() && e.fetch_reply_step == Some(w.step) {
+                                        "stored-state-read-failed".to_string()
+                                    } else {
+                                        format!("after-stored-state-read-failed:{}", rf::hex(&m[..m.len().min(2)]))
+                                    }
                                 } else if e.fault_kinds.iter().any(|k| {
                                     matches!(k, RpcKind::ListSendpays | RpcKind::WaitSendpay)
                                 }) {
@@ -1449,7 +1476,7 @@ impl Oracles {
 
     fn entry_on_answer(&mut self, w: &World, ci: usize, x: &H32, ans: &Answer) {
         let backpressure = w.cfg.backpressure;
-        let mpp_ms = w.cfg.mpp_timeout * 1000;
+        let mpp_ms = w.cfg.mpp_timeout.saturating_mul(1000);
         let e = match self.entries.get_mut(x) {
             Some(e) => e,
             None => return,
@@ -1539,12 +1566,12 @@ impl Oracles {
         let store_free_at_fetch = matches!(&e.fetch_reply, Some(Ok(StoreKind::Free)) | Some(Ok(StoreKind::Absent)));
         if let Answer::Fail(m) = ans {
             let is_timeout = *m == rf::MSG_TEMP_TRAMPOLINE.to_vec();
-            if is_timeout && e.doomed.is_none() && !e.either && !e.pay_issued && !e.marker_issued {
+            if is_timeout && e.doomed.is_none() && !e.either && !e.pay_issued && !e.attempt_started {
                 // An MPP-timeout failure of a set that was never funded.
                 if let (Some(ws), Some(left)) = (e.wait_start_ms, e.time_left_ms) {
                     if !e.timing_ambiguous {
                         self.hit("c11.timeout-failure-timed");
-                        let due = ws + left;
+                        let due = ws.saturating_add(left);
                         if !e.funded && now + SLACK_MS < due && store_free_at_fetch {
                             self.violate(
                                 w,
@@ -1553,7 +1580,7 @@ impl Oracles {
                                 format!("incomplete set for hash {} failed at t={}ms, before the MPP timeout elapsed (wait began {}ms, timeout {}ms)", rf::hex(x), now, ws, left),
                             );
                         }
-                        if now > due + SLACK_MS {
+                        if now > due.saturating_add(SLACK_MS) {
                             self.violate(
                                 w,
                                 "C11",
@@ -1563,7 +1590,7 @@ impl Oracles {
                         }
                         if e.restart_path {
                             self.hit("c11.restart-path-timed");
-                            if now > ws + mpp_ms + SLACK_MS {
+                            if now > ws.saturating_add(mpp_ms).saturating_add(SLACK_MS) {
                                 self.violate(
                                     w,
                                     "C11",
@@ -1692,7 +1719,7 @@ impl Oracles {
             let mut late: Vec<H32> = Vec::new();
             let mut checked = 0;
             for (x, e) in self.entries.iter() {
-                if !e.funded || e.doomed.is_some() || e.either || e.marker_issued || e.first_answer.is_some() {
+                if !e.funded || e.doomed.is_some() || e.either || e.attempt_started || e.first_answer.is_some() {
                     continue;
                 }
                 if !matches!(&e.fetch_reply, Some(Ok(StoreKind::Free)) | Some(Ok(StoreKind::Absent))) {
@@ -1704,7 +1731,7 @@ impl Oracles {
                 };
                 // Funding at (or within the slack of) the MPP deadline: either branch may win.
                 if let (Some(ws), Some(left), Some(fm)) = (e.wait_start_ms, e.time_left_ms, e.funded_ms) {
-                    if fm + SLACK_MS >= ws + left {
+                    if fm + SLACK_MS >= ws.saturating_add(left) {
                         continue;
                     }
                 }
@@ -1732,11 +1759,11 @@ impl Oracles {
         if !w.cfg.backpressure {
             let mut late: Vec<(H32, u64, u64)> = Vec::new();
             for (x, e) in self.entries.iter() {
-                if e.first_answer.is_some() || e.timing_ambiguous || e.marker_issued || e.pay_issued {
+                if e.first_answer.is_some() || e.timing_ambiguous || e.attempt_started || e.pay_issued {
                     continue;
                 }
                 if let (Some(ws), Some(left)) = (e.wait_start_ms, e.time_left_ms) {
-                    if !e.funded && w.now_ms > ws + left + SLACK_MS && !w.node.live(x) {
+                    if !e.funded && w.now_ms > ws.saturating_add(left).saturating_add(SLACK_MS) && !w.node.live(x) {
                         late.push((*x, ws, left));
                     }
                 }
@@ -1849,7 +1876,7 @@ impl Oracles {
                                     let c = &w.node.calls[ci];
                                     c.lifetime == w.node.lifetime
                                         && c.delivered_at_ms
-                                            .map(|t| w.now_ms >= t + w.cfg.mpp_timeout * 1000 + 61_000)
+                                            .map(|t| w.now_ms >= t.saturating_add(w.cfg.mpp_timeout.saturating_mul(1000)).saturating_add(61_000))
                                             .unwrap_or(false)
                                 }
                                 _ => false,
@@ -1914,9 +1941,24 @@ impl Oracles {
                     );
                 }
             }
-            for (_, c) in w.node.held_calls() {
+            for (ci, c) in w.node.held_calls() {
                 if Some(w.node.htlc(c.hid).spec.hash_ix) == w.frozen_hash {
                     continue;
+                }
+                // A configured MPP timeout of decades: a never-funded set is
+                // rightly still held when the run ends.
+                if w.cfg.mpp_timeout > 9_000_000 {
+                    let waiting = self.entries.values().any(|e| {
+                        e.members.contains(&ci)
+                            && !e.funded
+                            && e.doomed.is_none()
+                            && e.first_answer.is_none()
+                            && e.wait_start_ms.is_some()
+                    });
+                    if waiting {
+                        self.hit("c06.held-under-huge-timeout");
+                        continue;
+                    }
                 }
                 self.violate_k(
                     w,
